@@ -258,7 +258,8 @@ struct Exec<'a> {
     model: Model,
     disk: Rc<RefCell<DiskState>>,
     pkg: Option<Package<SimDisk>>,
-    writers: BTreeMap<u8, (msi::StreamWriter<SimDisk>, String, u32, Vec<WStep>)>,
+    /// live writers: (handle, name, data seed, steps so far, unflushed data)
+    writers: BTreeMap<u8, (msi::StreamWriter<SimDisk>, String, u32, Vec<WStep>, bool)>,
     violations: Vec<Violation>,
     stats: RunStats,
     /// model conformance no longer applies (corruption, crash without flush,
@@ -273,6 +274,8 @@ struct Exec<'a> {
     done: bool,
     any_hard_fault: bool,
     carry_ord: [u32; 4],
+    /// a directory entry was deleted while a handle on another stream was live
+    deleted_under_handle: bool,
 }
 
 fn fault_free() -> DiskCfg {
@@ -281,6 +284,14 @@ fn fault_free() -> DiskCfg {
 
 impl<'a> Exec<'a> {
     fn viol(&mut self, check: &str, site: &str, msg: String) {
+        let (check, site) = if self.deleted_under_handle && !check.starts_with("C09") {
+            // one known cause (DESIGN.md section 7): keep it apart from everything else
+            ("C11.handle-interleave", "dir-entry-deleted-under-live-handle")
+        } else if !self.writers.is_empty() && check.starts_with("C11") && check != "C11.panic" {
+            ("C11.handle-interleave", site)
+        } else {
+            (check, site)
+        };
         self.violations.push(Violation {
             check: check.to_string(),
             site: site.to_string(),
@@ -438,7 +449,9 @@ impl<'a> Exec<'a> {
         };
         self.stats.snapshots += 1;
         self.stats.oracle_evals += 1;
-        let mut diffs = snapshot::compare(&snap, &self.model);
+        let unsettled: Vec<(usize, String)> =
+            self.writers.values().filter(|w| w.4).map(|w| crate::names::stream_key(&w.1)).collect();
+        let mut diffs = snapshot::compare_skipping(&snap, &self.model, &unsettled);
         diffs.extend(snapshot::invariants(&snap, Some(&self.model)));
         self.map_diffs(diffs, phase);
     }
@@ -717,6 +730,17 @@ impl<'a> Exec<'a> {
     }
 
     fn mutation_step(&mut self, op: &Op) {
+        // scope: a stream is never written or removed under its own live handle
+        if let Op::WriteStream { name, .. } | Op::RemoveStream { name } = op {
+            let key = crate::names::stream_key(name);
+            let own: Vec<u8> =
+                self.writers.iter().filter(|(_, w)| crate::names::stream_key(&w.1) == key).map(|(h, _)| *h).collect();
+            for h in own {
+                self.writers.remove(&h);
+            }
+        }
+        let deletes_entry = matches!(op, Op::RemoveStream { .. } | Op::DropTable { .. } | Op::RemoveSignature);
+        let handles_live = !self.writers.is_empty();
         let expect = self.expectation(op);
         let check = self.cfg.oracles && !self.tainted;
         let stream_op = matches!(op, Op::WriteStream { .. } | Op::RemoveStream { .. } | Op::RemoveSignature);
@@ -818,6 +842,10 @@ impl<'a> Exec<'a> {
         }
         match res {
             Ok(()) => {
+                if deletes_entry && handles_live {
+                    self.deleted_under_handle = true;
+                    self.stats.probe("dir_entry_deleted_under_live_handle");
+                }
                 if expect == Expect::Either {
                     self.stats.probe("either_accepted");
                 }
@@ -1327,14 +1355,14 @@ impl<'a> Exec<'a> {
                             self.done = true;
                         }
                         self.model.apply_write_stream(name, *dseed, &[]);
-                        self.writers.insert(*h, (w, name.clone(), *dseed, Vec::new()));
+                        self.writers.insert(*h, (w, name.clone(), *dseed, Vec::new(), false));
                         self.stats.probe("live_writer_opened");
                     }
                     Caught::Val(Err(_)) => {}
                 }
             }
             Op::WriterStep { h, step } => {
-                if let Some((w, name, dseed, steps)) = self.writers.get_mut(h) {
+                if let Some((w, name, dseed, steps, dirty)) = self.writers.get_mut(h) {
                     let counter: u64 = steps.iter().map(|s| if let WStep::Write(n) = s { *n as u64 } else { 0 }).sum();
                     let step2 = step.clone();
                     let ds = *dseed;
@@ -1351,6 +1379,7 @@ impl<'a> Exec<'a> {
                     match r {
                         Caught::Panic(loc, msg) => self.panic_violation("StreamWriter", loc, msg, true),
                         Caught::Val(Ok(())) => {
+                            *dirty = !matches!(step, WStep::Flush);
                             steps.push(step.clone());
                             let (n, d, s) = (name.clone(), *dseed, steps.clone());
                             self.model.apply_write_stream(&n, d, &s);
@@ -1553,6 +1582,7 @@ pub fn run(trace: &Trace, cfg: &ExecCfg) -> RunResult {
         done: false,
         any_hard_fault: false,
         carry_ord: [0; 4],
+        deleted_under_handle: false,
     };
     match &trace.init {
         Init::Create(pt) => {
